@@ -158,7 +158,8 @@ func leaderKey(ls []validation.Leader) string {
 }
 
 // CheckC17 evaluates "the validator set evolves only at epoch boundaries and stays well-formed".
-func CheckC17(g Cfg, prev, cur *Obs, o Op, out Outcome) []Failure {
+// signalled: validators whose endorser signalled exit by a transaction in the same step (contract level: a step is a whole block).
+func CheckC17(g Cfg, prev, cur *Obs, o Op, out Outcome, signalled map[thor.Address]bool) []Failure {
 	var fs []Failure
 	bad := func(class, f string, a ...any) { fs = append(fs, Failure{class, fmt.Sprintf(f, a...)}) }
 	if cur.WalkErr || cur.LeadersErr {
@@ -291,7 +292,7 @@ func CheckC17(g Cfg, prev, cur *Obs, o Op, out Outcome) []Failure {
 	}
 	for _, v := range cur.Vals {
 		p := pv[v.Addr]
-		if p == nil || p.ExitBlock != nil || v.V.ExitBlock == nil {
+		if p == nil || p.ExitBlock != nil || v.V.ExitBlock == nil || signalled[v.Addr] {
 			continue
 		}
 		ok := p.OfflineBlock != nil && uint64(cur.Blk) > uint64(*p.OfflineBlock)+uint64(g.EvictThr) && cur.Blk%g.EvictInt == 0
